@@ -1527,3 +1527,79 @@ func ruleCounterDirection(r *Run, id string, pkgs ...string) {
 		r.Check("counter "+fk+" is updated", updated[fk] > 0, "", reported[fk], fmt.Sprintf("%d update site(s) of the counter reported by %s", updated[fk], reported[fk]))
 	}
 }
+
+// ruleNoAliasAfterTruncate: `s.f = s.f[:0]` keeps the backing array. A value loaded from s.f before that store and
+// still used after it (ranged over, indexed, passed on) shares the array with everything appended to s.f from then on:
+// later appends overwrite the entries that are still being consumed. The value must be a copy.
+func ruleNoAliasAfterTruncate(r *Run, id string, pkgs ...string) {
+	r.Begin(id, "a batch taken out of a slice field that is then truncated in place is a copy: where a function stores f[:0] (or f[:k]) back into a slice field, no earlier load of that field is still used after the store; the consumer works on a fresh slice", 1)
+	p := r.P
+	n := 0
+	for _, fn := range p.Funcs {
+		okPkg := false
+		for _, pk := range pkgs {
+			if fnPkgPath(fn) == modPath+pk {
+				okPkg = true
+			}
+		}
+		if !okPkg || fn.Blocks == nil {
+			continue
+		}
+		allInstrs(fn, func(ins ssa.Instruction) {
+			st, ok := ins.(*ssa.Store)
+			if !ok {
+				return
+			}
+			fk := fieldKeyOfAddr(st.Addr)
+			sl, isSl := st.Val.(*ssa.Slice)
+			if fk == "" || !isSl || sl.Low != nil || sl.High == nil {
+				return
+			}
+			if _, isSlice := sl.X.Type().Underlying().(*types.Slice); !isSlice {
+				return
+			}
+			src, isLoad := sl.X.(*ssa.UnOp)
+			if !isLoad || src.Op != token.MUL || fieldKeyOfAddr(src.X) != fk {
+				return
+			}
+			n++
+			name := fnName(fn)
+			// other loads of the same field that happen before the store and are used after it
+			var bad ssa.Instruction
+			allInstrs(fn, func(x ssa.Instruction) {
+				ld, isLd := x.(*ssa.UnOp)
+				if !isLd || ld.Op != token.MUL || fieldKeyOfAddr(ld.X) != fk || ld.Referrers() == nil {
+					return
+				}
+				if !(dominatesInstr(ld, st) || ld == src) {
+					return
+				}
+				for _, ref := range *ld.Referrers() {
+					if ref == ssa.Instruction(sl) {
+						continue
+					}
+					// uses that keep the array: range, index, slicing, passing on, storing elsewhere (len/cap are harmless)
+					if c, isCall := ref.(*ssa.Call); isCall {
+						if b, isB := c.Call.Value.(*ssa.Builtin); isB && (b.Name() == "len" || b.Name() == "cap" || b.Name() == "append") {
+							// append(dst, f...) copies f's elements when f is the variadic source: harmless; append(f, …) is not a consumer either
+							continue
+						}
+					}
+					if dominatesInstr(st, ref) || reachesWithout(st, func(y ssa.Instruction) bool { return y == ref }, nil) != nil {
+						bad = ref
+					}
+				}
+			})
+			where := posOf(p, st)
+			detail := "no earlier load of the field survives the truncation"
+			if bad != nil {
+				where = posOf(p, bad)
+				detail = "the value loaded from " + fk + " before it was truncated in place is still used at " + posOf(p, bad) + ": it shares the backing array with later appends, which overwrite entries not yet consumed"
+			}
+			r.Check(name+" truncates "+fk, bad == nil, where, name, detail)
+		})
+	}
+	if n == 0 {
+		r.Check("in-place truncations", true, "", "", "no slice field is truncated in place in these packages")
+	}
+}
